@@ -2604,11 +2604,32 @@ func ruleC17_5(c *Ctx, r *Rep) {
 						}
 					}
 				}
-				switch {
-				case src["field:MessageRetentionDuration"] || src["call:GetMessageRetentionDuration"] || src["field:MessageTTL"]:
-					zeroTests["retention"] = true
-				case src["field:ExpirationPolicy"] || src["call:GetExpirationPolicy"] || src["call:GetTtl"] || src["field:TTL"]:
-					zeroTests["ttl"] = true
+				classify := func(src map[string]bool) {
+					switch {
+					case src["field:MessageRetentionDuration"] || src["call:GetMessageRetentionDuration"] || src["field:MessageTTL"]:
+						zeroTests["retention"] = true
+					case src["field:ExpirationPolicy"] || src["call:GetExpirationPolicy"] || src["call:GetTtl"] || src["field:TTL"]:
+						zeroTests["ttl"] = true
+					}
+				}
+				classify(src)
+				// the test sits in a shared helper (`intervalOrDefault(d, def)` called for both durations): each call site's
+				// arguments say which duration it is applied to
+				if f != h && f.Parent() == nil {
+					for _, site := range c.callersOf(f) {
+						inOp := false
+						for _, g := range fns {
+							if top(site.Parent()) == top(g) {
+								inOp = true
+							}
+						}
+						if !inOp {
+							continue
+						}
+						for _, a := range site.Common().Args {
+							classify(sources(a))
+						}
+					}
 				}
 			}
 		}
